@@ -806,6 +806,7 @@ struct RunResult
     long calls = 0;
     std::vector<StepperResult> results;
     std::string error;  // exception text, if any
+    bool injected = false;  // the optional second batch was inserted
 };
 
 // Transport one event to completion (or until the call budget is exhausted)
@@ -813,7 +814,9 @@ inline RunResult run_event(World& w,
                            Stepper<MemSpace::host>& step,
                            std::vector<Primary> const& prim,
                            unsigned long event_id,
-                           long max_calls)
+                           long max_calls,
+                           std::vector<Primary> const* inject = nullptr,
+                           long inject_after = 0)
 {
     RunResult r;
     try
@@ -828,7 +831,16 @@ inline RunResult run_event(World& w,
             if (r.calls >= max_calls)
                 return r;
             ++w.rec->call;
-            res = step();
+            // optional second batch of primaries inserted while the event is
+            // in flight (Stepper::operator()(primaries) may be called at any
+            // time)
+            if (inject && r.calls == inject_after)
+            {
+                res = step(make_span(*inject));
+                r.injected = true;
+            }
+            else
+                res = step();
             r.results.push_back(res);
             ++r.calls;
         }
